@@ -1,3 +1,6 @@
 import KcpVerif.Generated
 import KcpVerif.Model.Ring
 import KcpVerif.Props.C20
+import KcpVerif.Model.Wire
+import KcpVerif.Model.SessOut
+import KcpVerif.Lemmas.Wire
